@@ -58,3 +58,58 @@ func c14AnchorOperands(r *drv.Run) {
 		}}
 	})
 }
+
+// c14LeadingStar: a regex that BEGINS with a capturing group whose body begins with `.*`, `.*?`, `a*` or `[ab]*` and
+// that refers back to that group later: failing at one offset of a line says nothing about the later offsets of the
+// line (the group may take less there). Ten regexes on every text over {a, b, -, newline} up to length 5; the
+// reference matcher decides (back-references), Go's regexp where there are none.
+func c14LeadingStar(r *drv.Run) {
+	dot := gen.Lit{S: "\n", Not: true}
+	a, b, dash := gen.Lit{S: "a"}, gen.Lit{S: "b"}, gen.Lit{S: "-"}
+	ab := gen.In{Items: []gen.ListItem{{Kind: "lit", S: "a"}, {Kind: "lit", S: "b"}}}
+	star := func(n gen.Node, lazy bool) gen.Node { return gen.Loop{Min: 0, Max: -1, Lazy: lazy, Body: n} }
+	plus := func(n gen.Node) gen.Node { return gen.Loop{Min: 1, Max: -1, Body: n} }
+	capt := func(name string, n ...gen.Node) gen.Node {
+		return gen.Seq{Items: []gen.Node{gen.Capture{Name: name, Body: gen.Seq{Items: n}}}}
+	}
+	seq := func(n ...gen.Node) gen.Seq { return gen.Seq{Items: n} }
+	ref := func(n string) gen.Node { return gen.BackRef{Name: n} }
+	type rx struct {
+		src   string
+		tree  gen.Seq
+		name  string
+		bref  bool
+		named bool
+	}
+	res := []rx{
+		{"(.*)b\\1", seq(capt("_1", star(dot, false)), b, ref("_1")), "_1", true, false},
+		{"(.*?)b\\1", seq(capt("_1", star(dot, true)), b, ref("_1")), "_1", true, false},
+		{"(?<w>.*)-\\k<w>", seq(capt("w", star(dot, false)), dash, ref("w")), "w", true, true},
+		{"(.*)-\\1-", seq(capt("_1", star(dot, false)), dash, ref("_1"), dash), "_1", true, false},
+		{"(a*)b\\1", seq(capt("_1", star(a, false)), b, ref("_1")), "_1", true, false},
+		{"([ab]*)-\\1", seq(capt("_1", star(ab, false)), dash, ref("_1")), "_1", true, false},
+		{"(.*a)-\\1", seq(capt("_1", star(dot, false), a), dash, ref("_1")), "_1", true, false},
+		{"(.+)b\\1", seq(capt("_1", plus(dot)), b, ref("_1")), "_1", true, false},
+		{"(.*)b", seq(capt("_1", star(dot, false)), b), "_1", false, false},
+		{"(.*?)-", seq(capt("_1", star(dot, true)), dash), "_1", false, false},
+	}
+	texts := allTexts("ab-\n", 5)[1:]
+	var cases []*c14Case
+	for _, x := range res {
+		re := gen.Regex{Src: x.src, Tree: x.tree}
+		p := &gen.Program{Commands: []gen.Command{{Amount: gen.Amount{Kind: "all"}, Body: []gen.Node{re}}}}
+		rg := &gen.RegexGen{NGroups: 1, Names: []string{x.name}, Named: x.named, HasBackRef: x.bref}
+		cases = append(cases, &c14Case{rg, re, p, gen.RenderProgram(p), texts, nil})
+	}
+	r.Exec(len(cases), drv.ExecOpts{Batch: 2}, func(i int) *drv.Item {
+		cs := cases[i]
+		c := wire.Case{Op: "run", Src: []byte(cs.src), Texts: cs.texts, StepBudget: 400000}
+		return &drv.Item{Case: c, Check: func(res *wire.Result) {
+			before := r.NViolations()
+			c14Check(r, cs, &c, res)
+			if r.NViolations() == before {
+				r.Count("regexes_beginning_with_a_starred_group_that_is_referred_back_to", 1)
+			}
+		}}
+	})
+}
